@@ -4,6 +4,7 @@ package router
 
 import (
 	"context"
+	"crypto/tls"
 	"fmt"
 	"net/netip"
 
@@ -101,3 +102,6 @@ func (v *VerifRouter) Owns(x any) bool {
 	}
 	return false
 }
+
+// VerifMakeTlsConfig exposes makeTlsConfig (CA / skip-verify / certificate / client verification handling).
+func VerifMakeTlsConfig(cfg *TlsConfig, server bool) (*tls.Config, error) { return makeTlsConfig(cfg, server) }
